@@ -24,7 +24,7 @@ PLAN = {
     "thorough": {"shards": 16, "shard_timeout": 3600, "case_timeout": 40, "grammars": 14000, "max_case_timeouts": 160},
 }
 THRESHOLDS = {
-    "quick": {"nodes_compared": 20000, "nodes_under_lists": 2000, "programs_after_variation": 300, "repr:tree": 300, "repr:ge": 100, "repr:sge": 100, "repr:dsge": 100, "list_nodes_compared": 1000, "expansion_nodes_compared": 8000, "expansion_nodes_with_exact_reference": 3000, "layered_expansion_cases": 100, "parents_rechecked_after_variation": 1000},
+    "quick": {"cases_declared_with_string_annotations": 50, "nodes_compared": 20000, "nodes_under_lists": 2000, "programs_after_variation": 300, "repr:tree": 300, "repr:ge": 100, "repr:sge": 100, "repr:dsge": 100, "list_nodes_compared": 1000, "expansion_nodes_compared": 8000, "expansion_nodes_with_exact_reference": 3000, "layered_expansion_cases": 100, "parents_rechecked_after_variation": 1000},
     "thorough": {"nodes_compared": 400000, "nodes_under_lists": 40000, "programs_after_variation": 6000},
 }
 
